@@ -98,6 +98,13 @@ CHECKS.update({
         'technique': TRACE_TECH, 'engine': 'trace-harness'},
 })
 
+CHECKS.update({
+    'C05': {
+        'text': 'Theorems c05_target / c05_delete_target (after the revert the entity\'s versioned columns are the version\'s values, a DELETE version leaves it absent - also when it is absent already), c05_target_frame (no other row is touched when no relationship is named), c05_o2m / c05_o2m_frame (a named one-to-many relationship is restored to the set the version shows: children removed since come back with the values of their as-of version, children added since go away, nothing else changes) over the row-level model of the reverter; that the revert is itself versioned is history_all. Tied to reverter.py by replaying every history on a fresh database for EVERY version row as target x {no relationship, each first-level relationship}, reverting, committing and judging the rows before/after with the Lean C05 predicates, the related set being computed by the Lean relationship model from the version tables.',
+        'note': TRACE_NOTE + ' PARTIAL: many-to-many and many-to-one restoration and nested / cyclic relation paths are decided by the correspondence runs (C05.M2MHolds and the many-to-one clause are evaluated by the driver; theorems exist for the target and one-to-many clauses).',
+        'technique': 'Lean 4 theorems over the row-level revert model + exhaustive per-version-row differential runs judged by Lean predicates', 'engine': 'revert-harness'},
+})
+
 NOT_APPLICABLE = {}
 
 ENGINES = [
@@ -108,6 +115,7 @@ ENGINES = [
     {'name': 'fault-harness', 'path': 'harness/props/c06.py', 'serves_properties': ['C06'], 'kind_free_text': 'statement-boundary fault injection, rollback variants, savepoint placements, kill runs in a child process'},
     {'name': 'twin-harness', 'path': 'harness/props/c07.py', 'serves_properties': ['C07'], 'kind_free_text': 'runs every program with and without make_versioned and compares outcomes and application tables'},
     {'name': 'schedule-harness', 'path': 'harness/props/c09.py', 'serves_properties': ['C09'], 'kind_free_text': 'k sessions on own connections sharing the global manager, interleaved by sampled/enumerated schedules'},
+    {'name': 'revert-harness', 'path': 'harness/props/c05.py', 'serves_properties': ['C05'], 'kind_free_text': 'replays a history per (version row, relationship set), reverts, commits, compares rows before/after'},
     {'name': 'table-harness', 'path': 'harness/props/tables.py', 'serves_properties': ['C08', 'C15', 'C16', 'C19', 'C20'], 'kind_free_text': 'fills real version tables directly, runs the real accessor/tool, compares with the Lean model'},
 ]
 
